@@ -32,6 +32,17 @@ PROJ = {
     "C20": dict(ret="c", snap="c", ev=None),
 }
 
+# operations whose lines are compared for a property (None: every line).  Other operations of a
+# case only build the state; a deviation there is visible in the snapshots of the compared ones.
+RELEVANT = {
+    "C08": {"alg", "is_subset", "is_superset", "is_disjoint", "sub"},
+    "C09": {"iter", "get", "get_mut"},
+    "C13": {"gdm", "gdum", "get_mut"},
+    "C14": {"eq"},
+    "C19": {"fmt", "iter", "alg", "drain", "into_iter"},
+    "C20": {"serde", "eq", "len", "get", "iter"},
+}
+
 # which of the harness-side oracles count for which property
 ORACLES = {
     "C02": {"led", "leak"}, "C03": {"can", "led"}, "C04": {"led"}, "C06": {"al", "in"},
@@ -161,6 +172,11 @@ def compare(prop, ops_path, impl_path, model_path, max_report=20):
             if not left.startswith("case") and ("[K" in left):
                 nontrivial = True
             pa, pb = project(prop, left), project(prop, split_line(b)[0])
+            rel = RELEVANT.get(prop)
+            if rel is not None:
+                tk = c["traced"][j].split()
+                if len(tk) >= 2 and tk[0] not in ("case", "end") and tk[1] not in rel:
+                    pa = pb = ""
             if pa != pb and mism is None:
                 mism = {"case": c["name"], "line": j, "op": c["traced"][j], "impl": a, "model": b,
                         "impl_proj": pa, "model_proj": pb}
